@@ -10,9 +10,25 @@ theorem BondedOf.of_seqs {s s' : St} {id : Nat} {a : Addr} (h : BondedOf s id a)
   obtain ⟨q, hq, hb⟩ := h
   exact ⟨q, by rw [getSeq_congr e]; exact hq, hb⟩
 
+/-- same rollapps and sequencers, possibly fewer notice-queue entries, any valid sequencer parameters -/
+theorem RolesCore.of_sub' {s s' : St} (h : RolesCore s) (e1 : s'.ras = s.ras) (e2 : s'.seqs = s.seqs)
+    (e3 : ∀ e ∈ s'.nq, e ∈ s.nq) (e4 : s'.t = s.t) (e5 : 0 < s'.sqp.noticePeriod) : RolesCore s' := by
+  constructor
+  · exact h.uniq.of_eq e1 e2
+  · intro r hr a ha; rw [e1] at hr; exact (h.prop r hr a ha).of_seqs e2
+  · intro r hr a ha; rw [e1] at hr; exact (h.succ r hr a ha).of_seqs e2
+  · intro r hr a ha q hq; rw [e1] at hr; rw [getSeq_congr e2] at hq; exact h.succFresh r hr a ha q hq
+  · intro r hr a ha; rw [e1] at hr; exact h.ne r hr a ha
+  · intro q hq; rw [e2] at hq; exact h.optOut q hq
+  · intro t a hta
+    obtain ⟨q, r, hq, hn, hr, hp⟩ := h.nq t a (e3 _ hta)
+    exact ⟨q, r, by rw [getSeq_congr e2]; exact hq, hn, by rw [getRa_congr e1]; exact hr, hp⟩
+  · intro e he; rw [e4]; exact h.fut e (e3 e he)
+  · exact e5
+
 /-- same rollapps and sequencers, possibly fewer notice-queue entries -/
 theorem RolesCore.of_sub {s s' : St} (h : RolesCore s) (e1 : s'.ras = s.ras) (e2 : s'.seqs = s.seqs)
-    (e3 : ∀ e ∈ s'.nq, e ∈ s.nq) (e4 : s'.t = s.t) (e5 : s'.p = s.p) : RolesCore s' := by
+    (e3 : ∀ e ∈ s'.nq, e ∈ s.nq) (e4 : s'.t = s.t) (e5 : s'.sqp = s.sqp) : RolesCore s' := by
   constructor
   · exact h.uniq.of_eq e1 e2
   · intro r hr a ha; rw [e1] at hr; exact (h.prop r hr a ha).of_seqs e2
